@@ -113,7 +113,8 @@ CLAIMED = {
         "timers; get_timer() must be finite after every call while the connection is live; after closing starts exactly "
         "one ConnectionTerminated arrives within 3 PTO (PTO read from the recovery object at that instant) plus injected "
         "lateness, no datagram follows the closing packets, nothing is emitted after termination although datagrams "
-        "keep arriving, and a silent peer leads to idle termination.",
+        "keep arriving, and a silent peer leads to idle termination - no later than the negotiated idle period and no "
+        "earlier than the smaller non-zero advertised one (one side advertises max_idle_timeout = 0 in a quarter of the runs).",
         "Trusted: harness. Closing start is observed white-box (connection state after each kernel step).",
         "DESIGN.md 7 C09",
     ),
